@@ -143,7 +143,8 @@ def const_item_names(case):
     for s in steps_of(case):
         if s["verb"] == "mutate":
             for n, e in s["items"]:
-                if not any(nd[0] == "col" for nd in ir.walk_expr(e)):
+                refs = [nd[1].get("c", nd[1].get("n")) for nd in ir.walk_expr(e) if nd[0] == "col"]
+                if all(r in out for r in refs) and not ir.has_op(e, ir.AGG_OPS | ir.WIN_OPS):
                     out.setdefault(n, []).append(s["out"])
     return out
 
